@@ -110,6 +110,10 @@ OPERATORS = [
     ("and", "True && 1"), ("and-l", "1 && True"), ("or", "False || 1"), ("or-l", "1 || True"),
     ("concat", '"a" ^ 1'), ("concat-l", '1 ^ "a"'), ("addf", "1.5 +. 1"), ("subf", "1 -. 1.5"),
     ("mulf", '1.5 *. "a"'), ("divf", "1 /. 1.5"),
+    # Int operators applied to a Float have their own error paths (the "consider a float operator" hint)
+    ("add-floatl", "1.5 + 1"), ("add-floatr", "1 + 1.5"), ("sub-floatl", "1.5 - 1"), ("mul-floatr", "2 * 1.5"),
+    ("div-floatl", "1.5 / 2"), ("lt-floatl", "1.5 < 1"), ("lt-floatr", "1 < 1.5"), ("ge-floatl", "1.5 >= 1"),
+    ("mod-floatr", "7 % 1.5"), ("pow-floatl", "1.5 ** 2"),
 ]
 
 CONTROL = [
